@@ -382,11 +382,11 @@ func multiset(l []string) map[string]int {
 func sameMultiset(a, b []string) bool { return reflect.DeepEqual(multiset(a), multiset(b)) }
 
 // subsequence order per source is checked on ids: errors of one source are given increasing ids
-func orderedPerSource(got []string, src map[string]int) bool {
+func orderedPerSource(got []string, src map[string]int, rank map[string]int) bool {
 	last := map[int]int{}
 	for _, e := range got {
-		n, err := strconv.Atoi(e)
-		if err != nil {
+		n, ok := rank[e] // the order of issue (ids are not always increasing numbers)
+		if !ok {
 			continue
 		}
 		s, ok := src[e]
@@ -415,6 +415,9 @@ func init() {
 				e := g.do("ecnew " + k)
 				var want []string
 				next := 1
+				// errors whose value is the zero value of its type (a field-less sentinel, the library's own
+				// NoSuchCellError{}, id 0): each at most once, so that "exactly once" still reads off the list
+				zeroPool := []string{"0", "900001", "900002", "900003"}
 				steps := 1 + r.n(6)
 				if c%15 == 0 {
 					steps = 40 + r.n(60) // a container that has seen a hundred errors
@@ -425,6 +428,9 @@ func init() {
 						if r.chance(2, 3) {
 							v = strconv.Itoa(next)
 							next++
+							if (c%12 == 3 || r.chance(1, 10)) && len(zeroPool) > 0 {
+								v, zeroPool = zeroPool[0], zeroPool[1:]
+							}
 							if k != "nil" {
 								want = append(want, v)
 							}
@@ -468,7 +474,17 @@ func init() {
 			t := g.do("newtable")
 			ti := idOf(t)
 			next := 1
-			newErr := func() string { next++; return strconv.Itoa(next) }
+			zeroPool := []string{"900003", "0", "900002", "900001"} // zero-valued error values, each at most once
+			rank := map[string]int{} // directly recorded errors, in order of issue
+			newErr := func() string {
+				next++
+				v := strconv.Itoa(next)
+				if (c%8 == 5 || r.chance(1, 12)) && len(zeroPool) > 0 {
+					v, zeroPool = zeroPool[0], zeroPool[1:]
+				}
+				rank[v] = next
+				return v
+			}
 			selfDup := false             // the caller re-submitted the table's own list: per-source order no longer applies
 			raised := map[int][]string{} // row id (or -1 table) -> errors raised there, in order
 			failCbs := map[int]string{}  // cb id -> error id it raises
@@ -476,6 +492,9 @@ func init() {
 			regFail := func(owner, when, target string) {
 				cbN++
 				e := strconv.Itoa(100000 + cbN*100 + r.n(5)) // the last digit picks the error value's shape (mkErr)
+				if (c%8 == 6 || r.chance(1, 12)) && len(zeroPool) > 0 {
+					e, zeroPool = zeroPool[0], zeroPool[1:]
+				}
 				res := g.do(fmt.Sprintf("regcb %s %s %s %s fail:%d:%s", t, owner, when, target, cbN, e))
 				if res == "ok" {
 					failCbs[cbN] = e
@@ -632,12 +651,12 @@ func init() {
 			src := map[string]int{}
 			for id, es := range raised {
 				for _, e := range es {
-					if n, _ := strconv.Atoi(e); n < 100000 {
+					if _, direct := rank[e]; direct {
 						src[e] = id
 					}
 				}
 			}
-			if !selfDup && !orderedPerSource(got, src) {
+			if !selfDup && !orderedPerSource(got, src, rank) {
 				viol = append(viol, fmt.Sprintf("errors of one source are out of order in %v", got))
 			}
 			for _, id := range detached {
